@@ -1,5 +1,6 @@
 """C06 - strict encoding rejects exactly the constraint-violating molecules;
 non-strict encoding never raises for that reason and ignores the table."""
+from vmon.oracles import read_decoder_output
 from vmon import env, hooks, tablegen
 from vmon.aromgen import standard_system, pi_set
 from vmon.hooks import MON, call_guard, cache_probe
@@ -129,10 +130,14 @@ def run(ctx):
             if d[0] != "ok":
                 ctx.finding("decoder-rejects-strict-output", payload, repr(d)[:200])
             else:
-                try:
-                    diff = compare_roundtrip(mm, read_smiles(d[1]), check_stereo=False)
-                except SmilesSyntaxError as e:
-                    diff = ("unreadable", str(e))
+                mo_, st_out = read_decoder_output(d[1], lambda m_: compare_roundtrip(mm, m_, check_stereo=False))
+                if st_out == "budget":
+                    diff = None
+                    ctx.count("segmentation_budget")
+                elif mo_ is None:
+                    diff = ("unreadable", "the decoder's output cannot be read")
+                else:
+                    diff = compare_roundtrip(mm, mo_, check_stereo=False)
                 if diff:
                     ctx.finding("strict-output-decodes-to-different-molecule", dict(payload, output=d[1]), diff[1])
         # switch the table (capacity cache is warm) and encode again without strict
